@@ -118,6 +118,35 @@ def gen_wig_input(rng, nchrom=None, value_mode="int", maxn=14, sorted_names=True
     return names, sizes, data, tags
 
 
+def inject_zero_length_wig(rng, names, sizes, data, tags, ends_ok=False):
+    """zero-length values (start = end: legal, accepted by the writer) in the middle of a chromosome, as its first and —
+    the shape several end-of-chromosome paths depend on — as its LAST item. Positions 0 and the chromosome length are
+    used only with ends_ok (D5 lives there)."""
+    nm = rng.choice(names)
+    vals = list(data[nm])
+    where = rng.choice(["last", "last", "mid", "first", "last_far"])
+    v = vals[-1][2]
+    if where == "mid" and len(vals) >= 2:
+        i = rng.range(1, len(vals) - 1)
+        p = rng.choice([vals[i - 1][1], vals[i][0]])
+        vals.insert(i, (p, p, v))
+    elif where == "first" and (vals[0][0] > 0 or ends_ok):
+        p = rng.range(0 if ends_ok else 1, vals[0][0])
+        vals.insert(0, (p, p, v))
+    elif where == "last_far" and (vals[-1][1] + 1 < sizes[nm] or ends_ok):
+        hi = sizes[nm] if ends_ok else sizes[nm] - 1
+        p = rng.range(vals[-1][1], hi)
+        vals.append((p, p, v))
+    elif vals[-1][1] < sizes[nm] or ends_ok:
+        vals.append((vals[-1][1], vals[-1][1], v))
+    else:
+        return
+    data[nm] = vals
+    tags.add("zero_length_value")
+    if vals[-1][0] == vals[-1][1]:
+        tags.add("zero_length_last")
+
+
 def wig_lines(names, sizes, data, extra_sizes=()):
     lines = [f"CHROM {n} {sizes[n]}" for n in sizes]
     for n, l in extra_sizes:
